@@ -33,10 +33,11 @@ import (
 
 // Options of a world.
 type Options struct {
-	Redis     bool // metadata store on miniredis instead of etcd (the plugin always uses etcd)
-	ShareBase int  // default 100
-	MaxShare  int  // default -1
-	Raw       bool // no interception at all (C34: the interceptor's own synchronisation would hide races)
+	Redis       bool          // metadata store on miniredis instead of etcd (the plugin always uses etcd)
+	ShareBase   int           // default 100
+	MaxShare    int           // default -1
+	LockTimeout time.Duration // default 20 s (== TTL of lock sessions)
+	Raw         bool          // no interception at all (C34: the interceptor's own synchronisation would hide races)
 }
 
 // World is one un-mocked cluster.
@@ -75,8 +76,12 @@ func (o Options) config(walFile string) types.Config {
 	if ms == 0 {
 		ms = -1
 	}
+	lt := o.LockTimeout
+	if lt == 0 {
+		lt = 20 * time.Second
+	}
 	cfg := types.Config{
-		LockTimeout:         20 * time.Second,
+		LockTimeout:         lt,
 		GlobalTimeout:       20 * time.Second,
 		ConnectionTimeout:   10 * time.Second,
 		HAKeepaliveInterval: 16 * time.Second,
